@@ -28,11 +28,12 @@ class IntS:
     def __init__(self, lo=None, hi=None):
         self.lo, self.hi = lo, hi
 
-    def fresh(self, E, name):
+    def fresh(self, E, name, init=False):
+        # range assumptions only for an initial state built by a VC; a block's pre-state is whatever the other threads left
         v = z3.Int(E.fresh(name))
-        if self.lo is not None:
+        if init and self.lo is not None:
             E.assumptions.append(v >= self.lo)
-        if self.hi is not None:
+        if init and self.hi is not None:
             E.assumptions.append(v <= self.hi)
         return v
 
@@ -44,7 +45,7 @@ class IntS:
 
 
 class BoolS:
-    def fresh(self, E, name):
+    def fresh(self, E, name, init=False):
         return z3.Bool(E.fresh(name))
 
     def flat(self, E, v):
@@ -59,13 +60,14 @@ class BoolS:
 class TokS:
     """opaque identity (timer, request, record, position vector ...): an integer token, 0 = None"""
 
-    def __init__(self, on_method=None):
-        self.on_method = on_method
+    def __init__(self, on_method=None, isa=None):
+        self.on_method, self.isa = on_method, isa
 
-    def fresh(self, E, name):
+    def fresh(self, E, name, init=False):
         t = z3.Int(E.fresh(name))
-        E.assumptions.append(t >= 0)
-        return E.tokref(t, self.on_method)
+        if init:
+            E.assumptions.append(t >= 0)
+        return E.tokref(t, self.on_method, isa=self.isa)
 
     def flat(self, E, v):
         return [E.tok(v)]
@@ -80,10 +82,10 @@ class MapS:
     def __init__(self, keys, vshape):
         self.keys, self.v = list(keys), vshape
 
-    def fresh(self, E, name):
+    def fresh(self, E, name, init=False):
         log = []
         for i, k in enumerate(self.keys):
-            log.append((z3.Bool(E.fresh(f"{name}_has{i}")), k, self.v.fresh(E, f"{name}_v{i}"), False))
+            log.append((z3.Bool(E.fresh(f"{name}_has{i}")), k, self.v.fresh(E, f"{name}_v{i}", init), False))
         return SDict(log)
 
     def flat(self, E, v):
@@ -104,7 +106,7 @@ class MapS:
         return out
 
     def _zero(self, E):
-        return self.v.flat(E, self.v.fresh(E, "zero")) if not isinstance(self.v, (IntS, TokS)) else [z3.IntVal(0)]
+        return self.v.flat(E, self.v.fresh(E, "zero")) if not isinstance(self.v, (IntS, TokS, RefS)) else [z3.IntVal(0)]
 
     def width(self):
         return len(self.keys) * (1 + self.v.width())
@@ -114,7 +116,7 @@ class SetS(MapS):
     def __init__(self, members):
         self.keys = list(members)
 
-    def fresh(self, E, name):
+    def fresh(self, E, name, init=False):
         return SDict([(z3.Bool(E.fresh(f"{name}_has{i}")), k, True, False) for i, k in enumerate(self.keys)], is_set=True)
 
     def flat(self, E, v):
@@ -134,10 +136,12 @@ class ListS:
     def __init__(self, n, eshape=None):
         self.n, self.e = n, eshape or TokS()
 
-    def fresh(self, E, name):
+    def fresh(self, E, name, init=False):
+        # the list has n slots: `ln <= n` is structural; that no thread ever writes a longer list is the unwinding
+        # assertion collected in E.overflow and discharged by the VC (bounds_ok)
         ln = z3.Int(E.fresh(name + "_len"))
         E.assumptions.append(z3.And(ln >= 0, ln <= self.n))
-        return SList([(ln > i, self.e.fresh(E, f"{name}_e{i}")) for i in range(self.n)])
+        return SList([(ln > i, self.e.fresh(E, f"{name}_e{i}", init)) for i in range(self.n)])
 
     def flat(self, E, v):
         if isinstance(v, Guarded):
@@ -159,7 +163,7 @@ class ListS:
             n0 = len(E.raises)
             x = E.slist_index(v, i, TRUE) if any(E.pybool(c) is not True for c, _ in v.items) else (v.items[i][1] if i < len(v.items) else None)
             del E.raises[n0:]
-            t = E.tok(x) if x is not None and not isinstance(x, Undefined) else z3.IntVal(0)
+            t = self.e.flat(E, x)[0] if x is not None and not isinstance(x, Undefined) else z3.IntVal(0)
             out.append(z3.If(ln > i, t, z3.IntVal(0)))
         if len(v.items) > self.n:
             E.overflow.append(ln > self.n)
@@ -169,13 +173,40 @@ class ListS:
         return 1 + self.n
 
 
+class RefS:
+    """reference to one of a fixed universe of heap objects (subscriptions ...): flattened to its 1-based index, 0 = None"""
+
+    def __init__(self, objs):
+        self.objs = list(objs)
+
+    def fresh(self, E, name, init=False):
+        i = z3.Int(E.fresh(name))
+        E.assumptions.append(z3.And(i >= 1, i <= len(self.objs)))          # structural: a slot in use refers to a known object
+        return Guarded([(i == k + 1, o) for k, o in enumerate(self.objs)]) if len(self.objs) > 1 else self.objs[0]
+
+    def flat(self, E, v):
+        if isinstance(v, Guarded):
+            alts = [(c, self.flat(E, x)[0]) for c, x in v.alts if not isinstance(x, Undefined)]
+            return [_ite_chain(alts)] if alts else [z3.IntVal(0)]
+        if v is None or isinstance(v, Undefined):
+            return [z3.IntVal(0)]
+        for k, o in enumerate(self.objs):
+            if o is v or (isinstance(v, Obj) and v.origin is not None and v.origin is o):
+                return [z3.IntVal(k + 1)]
+        E.overflow.append(TRUE)
+        return [z3.IntVal(-1)]
+
+    def width(self):
+        return 1
+
+
 class RecS:
     """immutable record object that is replaced as a whole (a position vector): integer fields, identity not tracked"""
 
     def __init__(self, cls, fields, const=None):
         self.cls, self.fields, self.const = cls, list(fields), dict(const or {})
 
-    def fresh(self, E, name):
+    def fresh(self, E, name, init=False):
         d = {f: z3.Int(E.fresh(f"{name}_{f}")) for f in self.fields}
         d.update(self.const)
         return Obj(self.cls, d)
@@ -209,6 +240,7 @@ class Block:
         self.thread, self.index, self.pc, self.pre, self.kind, self.lock = thread, index, pc, pre, kind, lock
         self.out = None
         self.held_after = None
+        self.fn = None            # function whose `with` acquired the lock that starts this block
 
 
 class Tracer(Full):
@@ -278,6 +310,7 @@ class Tracer(Full):
                     self.lock_edges.add((h, lid))
             if lid not in self.held:
                 self.yield_point(pc, "acquire", lid)
+                self.blocks[-1].fn = getattr(getattr(fr, "fn", None), "__name__", None)
             elif isinstance(v, _LOCK_TYPES[0]):
                 # a plain (non re-entrant) Lock taken again by its holder blocks for ever
                 self.self_deadlocks.append((pc, self.lock_names.get(lid, "lock"), self.cur_thread))
@@ -356,9 +389,17 @@ class Tracer(Full):
     def yield_point(self, pc, kind, lock):
         if self.cur_thread is None:
             return
+        carried = 0
         if self.blocks and self.blocks[-1].thread == self.cur_thread and self.blocks[-1].out is None:
-            self.blocks[-1].out = self.snapshot()
-            self.blocks[-1].nevents_end = len(self.events)
+            last = self.blocks[-1]
+            if last.kind == "start" and self.pybool(pc) is True:
+                # nothing shared was touched since the thread started: the start segment belongs to this first block
+                carried = last.nevents_start
+                self.blocks.pop()
+                last = None
+            else:
+                last.out = self.snapshot()
+                last.nevents_end = len(self.events)
         idx = sum(1 for b in self.blocks if b.thread == self.cur_thread)
         pre = []
         for key in self.order:
@@ -372,7 +413,8 @@ class Tracer(Full):
             own.append(t)
             self.owner[l] = t if self.pybool(pc) is True else z3.If(pc, t, self.tok(self.owner.get(l, z3.IntVal(0))))
         b = Block(self.cur_thread, idx, pc, pre + own, kind, lock)
-        b.nevents_start = len(self.events)
+        b.nevents_start = carried if (carried and idx == 0) else len(self.events)
+        b.first = idx == 0
         b.held_before = tuple(self.held)
         self.blocks.append(b)
         if kind == "acquire":
@@ -451,7 +493,10 @@ class Ilv:
         raise Unsupported("lock discipline did not stabilise")
 
     # ------------------------------------------------------------ schedule encoding
-    def encode(self, extra_order=()):
+    def encode(self, extra_order=(), style="uf"):
+        """schedule constraints.  style "uf": the global state is a family of functions of time G_x(t); block b reads
+        G_x(tau_b) and defines G_x(tau_b + 1) - K*n constraints.  style "slots": explicit state per slot, K*K*n constraints
+        (kept as the cross-check encoding of the thorough tier)."""
         E = self.E
         B = E.blocks
         K = len(B)
@@ -464,27 +509,137 @@ class Ilv:
             for j, c in enumerate(B):
                 if b.thread == c.thread and c.index == b.index + 1:
                     s.append(tau[i] < tau[j])
-        G = [[None] * n for _ in range(K + 1)]
-        for t in range(K + 1):
-            for x in range(n):
-                proto = self.init[x]
-                G[t][x] = z3.Bool(f"G_{t}_{x}") if z3.is_bool(proto) else z3.Int(f"G_{t}_{x}")
-        s += [G[0][x] == self.init[x] for x in range(n)]
         nl = len(E.all_locks)
-        for i, b in enumerate(B):
-            for t in range(K):
-                bind = [b.pre[x] == G[t][x] for x in range(n)]
-                step = [G[t + 1][x] == z3.If(b.pc, b.out[x], G[t][x]) for x in range(n)]
-                guard = []
-                if b.kind == "acquire":
-                    li = E.all_locks.index(b.lock) if b.lock in E.all_locks else None
-                    if li is not None:
-                        tid = E.thread_ids[b.thread]
-                        own = G[t][n - nl + li]
-                        guard.append(z3.Implies(b.pc, z3.Or(own == 0, own == tid)))
-                s.append(z3.Implies(tau[i] == t, z3.And(*(bind + step + guard))))
-        self.tau, self.G, self.K = tau, G, K
+        if style == "slots":
+            G = [[None] * n for _ in range(K + 1)]
+            for t in range(K + 1):
+                for x in range(n):
+                    proto = self.init[x]
+                    G[t][x] = z3.Bool(f"G_{t}_{x}") if z3.is_bool(proto) else z3.Int(f"G_{t}_{x}")
+            s += [G[0][x] == self.init[x] for x in range(n)]
+            for i, b in enumerate(B):
+                for t in range(K):
+                    bind = [b.pre[x] == G[t][x] for x in range(n)]
+                    step = [G[t + 1][x] == z3.If(b.pc, b.out[x], G[t][x]) for x in range(n)]
+                    guard = []
+                    if b.kind == "acquire":
+                        li = E.all_locks.index(b.lock) if b.lock in E.all_locks else None
+                        if li is not None:
+                            tid = E.thread_ids[b.thread]
+                            own = G[t][n - nl + li]
+                            guard.append(z3.Implies(b.pc, z3.Or(own == 0, own == tid)))
+                    s.append(z3.Implies(tau[i] == t, z3.And(*(bind + step + guard))))
+            final = G[K]
+        else:
+            F = [z3.Function(f"G_{x}", z3.IntSort(), z3.BoolSort() if z3.is_bool(self.init[x]) else z3.IntSort()) for x in range(n)]
+            s += [F[x](0) == self.init[x] for x in range(n)]
+            for i, b in enumerate(B):
+                s += [b.pre[x] == F[x](tau[i]) for x in range(n)]
+                s += [F[x](tau[i] + 1) == z3.If(b.pc, b.out[x], b.pre[x]) if not z3.is_true(b.pc) else F[x](tau[i] + 1) == b.out[x] for x in range(n)]
+                if b.kind == "acquire" and b.lock in E.all_locks:
+                    li = E.all_locks.index(b.lock)
+                    tid = E.thread_ids[b.thread]
+                    own = b.pre[n - nl + li]
+                    s.append(z3.Implies(b.pc, z3.Or(own == 0, own == tid)))
+            final = [F[x](K) for x in range(n)]
+            G = None
+        self.tau, self.G, self.K, self.final_state = tau, G, K, final
+        self.cons_all, self._extra_terms = s, []
         return s
+
+    # ------------------------------------------------------------ serial reference runs (linearizability oracle)
+    def _consts(self, terms):
+        seen, out, todo = set(), {}, [t for t in terms if isinstance(t, z3.ExprRef)]
+        while todo:
+            t = todo.pop()
+            if t.get_id() in seen:
+                continue
+            seen.add(t.get_id())
+            if z3.is_const(t) and t.decl().kind() == z3.Z3_OP_UNINTERPRETED:
+                out[t.decl().name()] = t
+            else:
+                todo.extend(t.children())
+        return out
+
+    def serial_copy(self, units, tag, inputs=()):
+        """the same operations executed unit after unit (a unit = a list of blocks run without interruption) from the same initial
+        state and the same inputs, on a private copy of every other variable.  Returns (constraints, rename) - rename(term) is the
+        term's value in that reference run.  Inputs = variables of the initial state terms and those listed; everything else
+        (block pre-states, auxiliary variables of the evaluation) is renamed, the evaluator's assumptions are duplicated."""
+        E = self.E
+        keep = set(self._consts(self.init)) | {v.decl().name() for v in inputs}
+        body = []
+        for b in E.blocks:
+            body += [b.pc] + list(b.pre) + [o for o in b.out if isinstance(o, z3.ExprRef)]
+        allc = self._consts(body + list(E.assumptions) + list(self._extra_terms) + list(self.final_state))
+        pairs = [(v, z3.Const(f"{n}@{tag}", v.sort())) for n, v in allc.items() if n not in keep and not n.startswith("tau_")]
+
+        def ren0(t):
+            if not isinstance(t, z3.ExprRef):
+                return t
+            return z3.substitute(t, *pairs) if pairs else t
+        cons = [ren0(a) for a in E.assumptions]
+        G = list(self.init)
+        n = len(self.init)
+        for unit in units:
+            for b in unit:
+                cons += [ren0(b.pre[x]) == G[x] for x in range(n)]
+                pc = ren0(b.pc)
+                G = [z3.If(pc, ren0(b.out[x]), G[x]) if not z3.is_true(pc) else ren0(b.out[x]) for x in range(n)]
+        fin_pairs = [(f, g) for f, g in zip(self.final_state, G)]
+
+        def ren(t):
+            """value of a term of the concurrent run (block-local variables, final state) in this reference run"""
+            if not isinstance(t, z3.ExprRef):
+                return t
+            return z3.substitute(z3.substitute(t, *fin_pairs), *pairs) if pairs else z3.substitute(t, *fin_pairs)
+        return cons, ren
+
+    def reference_orders(self, starts_unit=None):
+        """all reference executions: every thread is a sequence of atomic units (by default one unit = the whole operation; with
+        `starts_unit(block)` a multi-step pass is cut into its per-item steps), units of one thread in program order"""
+        names = [t[0] for t in self.spec["threads"]]
+        seqs = {}
+        for nm in names:
+            units = []
+            for b in sorted([b for b in self.E.blocks if b.thread == nm], key=lambda b: b.index):
+                if not units or (starts_unit is not None and starts_unit(b)):
+                    units.append([b])
+                else:
+                    units[-1].append(b)
+            seqs[nm] = units
+        out = []
+
+        def rec(pos, acc):
+            if all(pos[nm] == len(seqs[nm]) for nm in names):
+                out.append(list(acc))
+                return
+            for nm in names:
+                if pos[nm] < len(seqs[nm]):
+                    pos[nm] += 1
+                    acc.append(seqs[nm][pos[nm] - 1])
+                    rec(pos, acc)
+                    acc.pop()
+                    pos[nm] -= 1
+        rec({nm: 0 for nm in names}, [])
+        return out
+
+    def not_linearizable(self, obs, inputs=(), starts_unit=None, extra_terms=()):
+        """constraint: the observation vector `obs` (return values, final state, recorded events) of the concurrent run differs from
+        the one of EVERY reference execution.  The reference runs are deterministic in the inputs, so 'some copy differs'
+        coincides with 'the copy differs'."""
+        self._extra_terms = list(obs) + list(extra_terms)
+        out = []
+        orders = self.reference_orders(starts_unit)
+        self.n_reference_orders = len(orders)
+        for k, units in enumerate(orders):
+            cons, ren = self.serial_copy(units, f"s{k}", inputs)
+            diff = [o != ren(o) for o in obs if isinstance(o, z3.ExprRef)]
+            out.append(z3.And(*cons, z3.Or(*diff) if diff else FALSE))
+        return z3.And(*out)
+
+    def overflow_cond(self):
+        return z3.Or(*self.E.overflow) if self.E.overflow else FALSE
 
     def time_of_event(self, ev_index):
         """tau of the block during which event #ev_index (position in E.events) was recorded"""
@@ -507,7 +662,7 @@ class Ilv:
             o, f, shape, lk = E.shared[key]
             w = shape.width()
             if o is obj and f == field:
-                return self.G[self.K][off:off + w]
+                return self.final_state[off:off + w]
             off += w
         raise KeyError(field)
 
